@@ -124,6 +124,15 @@ def run(F, R, tier, M=None):
             R.check("X6", ok, f["name"], F.loc(f), "free function does more than `delete cast(handle)`",
                     key="X6|%s" % f["name"])
 
+    # ---- X7 no ignored argument ---------------------------------------------------------
+    R.rule("X7", "every parameter of every extern \"C\" definition is read in its body (a wrapper that ignores an argument "
+                 "is not a mirror of the C++ call it stands for)", 130)
+    for k, f in sorted(ext.items()):
+        used = {n.get("id") for n in walk(f["body"]) if n.get("k") == "DeclRefExpr"}
+        dead = [p["name"] or "#%d" % i for i, p in enumerate(f["params"]) if p["id"] not in used]
+        R.check("X7", not dead, f["name"], F.loc(f), "parameter(s) %s never read: the call ignores what the C caller passed"
+                % ", ".join(dead), key="X7|%s" % f["name"])
+
     # ---- X5m struct mirrors --------------------------------------------------------
     R.rule("X5m", "C<->C++ struct conversions pair each field with the same-named field/accessor (same index "
                   "order, real before imag) and cover every field of the C struct", 60)
